@@ -301,7 +301,7 @@ struct MemEngine : Engine {
         g_nfaults = 0; g_abort_reason = 0;
         sigjmp_buf jb; bool ok = true;
         if (poison) { poison_stack(poison); tag_bytes(poison * 977u, garbage, 64); sim_poison_vector_regs(garbage, cpu_level); }
-        unsigned alarm_left = alarm(10);           // per-call limit: an operation that does not return is a violation, not a stalled batch
+        unsigned alarm_left = alarm(3);           // per-call limit: an operation that does not return is a violation, not a stalled batch
         if (sigsetjmp(jb, 1) == 0) {
             g_jmp = &jb;
             if (wfd_leader >= 0) { ioctl(wfd_leader, PERF_EVENT_IOC_RESET, PERF_IOC_FLAG_GROUP); ioctl(wfd_leader, PERF_EVENT_IOC_ENABLE, PERF_IOC_FLAG_GROUP); }
@@ -464,7 +464,7 @@ struct MemEngine : Engine {
             const FaultRec& f = fr[nf ? nf - 1 : 0];
             char d[320];
             if (abort_reason == 4) {
-                std::snprintf(d, sizeof d, "%s %s form=%s n=%u: the call did not return within 10 s", op.c_str(), t->name, c.form.c_str(), c.n);
+                std::snprintf(d, sizeof d, "%s %s form=%s n=%u: the call did not return within 3 s", op.c_str(), t->name, c.form.c_str(), c.n);
                 rr->violate("C08", stepno, {"C08", "hang", op, t->name, c.form}, d);
             } else if (abort_reason == 1) {
                 std::snprintf(d, sizeof d, "%s %s form=%s n=%u p%%%u=%zu: general-protection fault (aligned instruction on an element-aligned pointer?) code=%s", op.c_str(), t->name, c.form.c_str(), c.n, t->vec_align, c.p % t->vec_align, hexbytes(f.code, 8).c_str());
@@ -580,7 +580,7 @@ struct MemEngine : Engine {
         if (ptr == "null") st->probes["prefetch_null_pointer"]++;
         if (bytes == 0) st->probes["prefetch_n0"]++;
         if (!ok && abort_reason == 4) {
-            char d[200]; std::snprintf(d, sizeof d, "%s level=%d form=%s n=%zu ptr=%s: the call did not return within 10 s", opn, c.plevel, form.c_str(), c.pn, ptr.c_str());
+            char d[200]; std::snprintf(d, sizeof d, "%s level=%d form=%s n=%zu ptr=%s: the call did not return within 3 s", opn, c.plevel, form.c_str(), c.pn, ptr.c_str());
             rr->violate("C20", stepno, {"C20", "hang", opn, form}, d); return;
         }
         if (!ok || nf > 0) {
@@ -863,7 +863,11 @@ struct MemEngine : Engine {
 };
 
 struct Boot { int argc; char** argv; int rc; };
-void* engine_thread(void* a) { Boot* b = (Boot*)a; static MemEngine e; b->rc = worker_main(e, b->argc, b->argv); return nullptr; }
+void* engine_thread(void* a) {
+    // timer signals must be handled by THIS thread (the handler longjmps into this thread's stack): main keeps SIGALRM blocked
+    sigset_t m; sigemptyset(&m); sigaddset(&m, SIGALRM); pthread_sigmask(SIG_UNBLOCK, &m, nullptr);
+    Boot* b = (Boot*)a; static MemEngine e; b->rc = worker_main(e, b->argc, b->argv); return nullptr;
+}
 
 } // namespace
 
@@ -872,6 +876,7 @@ int main(int argc, char** argv) {
     // the engine runs on a stack at a fixed address so that stack residues and instruction counts replay exactly
     void* stk = mmap((void*)STACK_BASE, STACK_SIZE, PROT_READ | PROT_WRITE, MAP_PRIVATE | MAP_ANONYMOUS | MAP_FIXED_NOREPLACE, -1, 0);
     if (stk != (void*)STACK_BASE) { std::printf("E {\"error\":\"cannot map fixed engine stack\"}\n"); return 2; }
+    { sigset_t m; sigemptyset(&m); sigaddset(&m, SIGALRM); pthread_sigmask(SIG_BLOCK, &m, nullptr); }
     Boot b{argc, argv, 2}; pthread_attr_t at; pthread_attr_init(&at); pthread_attr_setstack(&at, stk, STACK_SIZE);
     pthread_t th; if (pthread_create(&th, &at, engine_thread, &b) != 0) { std::printf("E {\"error\":\"cannot start engine thread\"}\n"); return 2; }
     pthread_join(th, nullptr);
